@@ -6,6 +6,7 @@
 //              samples under unrelated keys, at the admissible noise maximum, optionally through the wire
 #include "scen.h"
 #include <cmath>
+#include <map>
 #include <algorithm>
 #include <pthread.h>
 #include <numeric_functions.h>
@@ -132,6 +133,25 @@ static void exec_rand(const Plan &p, RunResult &r) {
             if (h1 != h2) r.v.raise("reseed-differs", "C07.reseed", fmt("re-seeding with the same seed after a history of %d extra encryptions%s produced different keys/ciphertexts", hist, o.geti("thread") ? " (on another thread)" : ""), (int) oi);
             uint64_t h3 = produce(S + 1, variant);
             if (h3 == h1) r.v.raise("seeds-collide", "C07.seeds", "different seeds produced identical keys and ciphertexts", (int) oi);
+            {   // seeds are word vectors: vectors that differ in order, length (zero-extended), multiplicity or by moving bits from one
+                // word to another are different seeds and must give different keys (what one LWE key of 48 bits looks like under each)
+                uint32_t a = (uint32_t) rr.next() | 1u, b = (uint32_t) rr.next() | 2u; if (a == b) b ^= 0x10u;
+                std::vector<std::vector<uint32_t>> seeds = {{a, b}, {b, a}, {a}, {a, 0}, {0, a}, {a, a}, {b, b}, {a ^ b}, {a ^ b, 0}, {a, b, 0}, {a, b, a}, {a + b}};
+                std::map<uint64_t, size_t> seen;
+                for (size_t q = 0; q < seeds.size() && !r.v.set; q++) {
+                    tfhe_random_generator_setSeed(seeds[q].data(), (int32_t) seeds[q].size());
+                    LweParams *lp = new_LweParams(48, 1e-5, 0.1); LweKey *lk = new_LweKey(lp); lweKeyGen(lk);
+                    LweSample *c = new_LweSample(lp); lweSymEncrypt(c, 777, 1e-5, lk);
+                    Hash hh; hh.bytes(lk->key, 48 * 4); hh.bytes(c->a, 48 * 4); hh.bytes(&c->b, 4);
+                    delete_LweSample(c); delete_LweKey(lk); delete_LweParams(lp);
+                    auto ins = seen.emplace(hh.get(), q);
+                    if (!ins.second) {
+                        auto show = [](const std::vector<uint32_t> &v) { std::string t = "{"; for (size_t i = 0; i < v.size(); i++) t += (i ? "," : "") + std::to_string(v[i]); return t + "}"; };
+                        r.v.raise("seeds-collide", "C07.seeds", "the different seed vectors " + show(seeds[ins.first->second]) + " and " + show(seeds[q]) + " produce the same key and ciphertext", (int) oi);
+                    }
+                }
+                r.probes.add("structured_seed_vectors");
+            }
             // one process-wide generator: seeding on this thread governs generation on any other thread ...
             lib_seed(S); uint64_t m1 = produce_noseed(variant);
             lib_seed(S); ThreadArg b1{S, variant, 0}; { pthread_t th; pthread_create(&th, nullptr, produce_noseed_thread, &b1); pthread_join(th, nullptr); }
